@@ -140,7 +140,8 @@ pub fn oracle_c05(scn: &E3Scn, d: &D3, out: &RunOut, stats: &mut Stats) -> Vec<V
         }
     }
     // helper: the child alive at instant t (spawned strictly before, not ended at or before)
-    let alive_at = |t: u64| -> Vec<usize> { pre.iter().filter(|(_, c)| c.spawn_t < t && c.exit.map(|e| e.0 > t).unwrap_or(true)).map(|(k, _)| *k).collect() };
+    // (a death by signal or kill at instant t is the consequence of a control handled at t: the child was alive then)
+    let alive_at = |t: u64| -> Vec<usize> { pre.iter().filter(|(_, c)| c.spawn_t < t && c.exit.map(|e| e.0 > t || (e.0 == t && e.1 >= 1000)).unwrap_or(true)).map(|(k, _)| *k).collect() };
     let transition_at = |t: u64| -> bool { kids.iter().any(|(_, c)| c.spawn_t == t || c.exit.map(|e| e.0 == t).unwrap_or(false) || c.reaped.map(|r| r.0 == t).unwrap_or(false)) };
     // (3) freshness
     if let Some(&(lid, lt, lseq)) = d.changes.last() {
@@ -196,14 +197,17 @@ pub fn oracle_c05(scn: &E3Scn, d: &D3, out: &RunOut, stats: &mut Stats) -> Vec<V
         }
         let next_b = change_batches.get(bi + 1).map(|n| n.1).unwrap_or(qseq);
         let alive = alive_at(tb);
-        if alive.len() != 1 || transition_at(tb) || transition_at(td) {
+        // a tie = a child transition at the delivery or decision instant that this batch did not cause itself:
+        // a natural exit, or a spawn logged before the batch
+        let tie = |t: u64| kids.iter().any(|(_, c)| (c.spawn_t == t && c.spawn_seq < bseq) || c.exit.map(|e| e.0 == t && e.1 < 1000).unwrap_or(false));
+        if alive.len() != 1 || tie(tb) || tie(td) {
             stats.hit("probe:change-ties-with-child-transition-or-idle");
             continue;
         }
         let k = alive[0];
         let c = &pre_children[k];
         // the child is still alive at the decision instant and not already being stopped
-        let alive_td = c.exit.map(|e| e.0 > td).unwrap_or(true);
+        let alive_td = c.exit.map(|e| e.0 > td || (e.0 == td && e.1 >= 1000)).unwrap_or(true);
         let being_stopped = c.signals.iter().any(|s| s.1 < bseq) || c.kills.iter().any(|x| x.1 < bseq);
         // other batches delivered inside [tb, td] make attribution ambiguous
         let crowded = change_batches.iter().any(|o| o.1 != bseq && o.0 >= tb && o.0 <= td);
